@@ -113,6 +113,32 @@ pub fn run(ctx: &mut Ctx, args: &[String]) {
     ctx.out_json("layout", s);
 }
 
+/// `extract_batch <gadget> <lo> <hi> [extra..]`: one layout per width in lo..=hi
+/// (`extra` args are inserted before the width, e.g. `logic xor`).
+pub fn run_batch(ctx: &mut Ctx, args: &[String]) {
+    let g = args[0].clone();
+    let lo: usize = args[1].parse().unwrap();
+    let hi: usize = args[2].parse().unwrap();
+    let extra: Vec<String> = args[3..].to_vec();
+    let mut all = vec![];
+    for w in lo..=hi {
+        let mut a = vec![g.clone()];
+        a.extend(extra.iter().cloned());
+        a.push(w.to_string());
+        let mut c = Composer::initialized();
+        let init_rows = c.constraints();
+        let (inputs, returned) = build_gadget(&mut c, &a, &mut |n| ctx.var(n));
+        let mut s = snapshot_json(&c);
+        let o = s.as_object_mut().unwrap();
+        o.insert("inputs".into(), Value::Object(inputs));
+        o.insert("returned".into(), Value::Object(returned));
+        o.insert("init_rows".into(), json!(init_rows));
+        o.insert("width".into(), json!(w));
+        all.push(s);
+    }
+    ctx.out_json("layouts", Value::Array(all));
+}
+
 /// Deterministic RNG for replays (not cryptographic; replay only).
 pub struct ReplayRng(pub u64);
 impl rand_core::RngCore for ReplayRng {
